@@ -32,7 +32,25 @@ def typed_chain(rng: random.Random) -> dict:
                     "ann": {"pp": in_t, "return": "str"}}
         nodes[2] = {"name": "c", "kind": "fn", "params": [["y", None], ["q", {"d": 1}]], "inRen": [["y", "q"], ["q", "y"]], "dataOuts": ["r"],
                     "body": {"b": "tag", "t": "c"}, "ann": {"y": "str", "q": "int", "return": "str"}}
+    if rng.random() < 0.4:
+        # the producer `a` (and a sibling producing a str) live in a nested graph whose wrapper renames its outputs (rename / swap):
+        # the declared type of each port must follow the rename
+        a = nodes[0]
+        a2 = {"name": "a2", "kind": "fn", "params": [["x", None]], "dataOuts": ["s"], "body": {"b": "tag", "t": "a2"}, "ann": {"x": "int", "return": "str"}}
+        mode = rng.choice(["none", "rename", "swap"])
+        out_ren = {"none": [], "rename": [["p", "pz"]], "swap": [["p", "s"], ["s", "p"]]}[mode]
+        carrier = {"none": "p", "rename": "pz", "swap": "s"}[mode]      # the current name that carries a's value
+        b = nodes[1]
+        bp = b["params"][0][0]
+        b["inRen"] = [[bp, carrier]] if bp != carrier else []
+        inner = {"name": "inner", "nodes": [a, a2], "bound": []}
+        wrapper = {"name": "w", "kind": "graph", "inner": 0, "inRen": [], "outRen": out_ren}
+        return {"program": [inner, {"name": "g1", "nodes": [wrapper, b, nodes[2]], "bound": [], "strict": True}], "values": [["x", 1]]}
     return {"program": [{"name": "g0", "nodes": nodes, "bound": [], "strict": True}], "values": [["x", 1]]}
+
+
+def _find(nodes: list[dict], name: str) -> dict | None:
+    return next((n for n in nodes if n["name"] == name), None)
 
 
 def inject(rng: random.Random, program: list[dict], flaw: str, gi: int) -> list[dict] | None:
@@ -158,14 +176,19 @@ def inject(rng: random.Random, program: list[dict], flaw: str, gi: int) -> list[
     elif flaw == "type_mismatch":
         if not g.get("strict"):
             return None
-        b = next(n for n in nodes if n["name"] == "b")
+        b = _find(nodes, "b")
+        a = _find(nodes, "a") or _find(p[0]["nodes"], "a")
+        if b is None or a is None:
+            return None
         b["ann"][b["params"][0][0]] = rng.choice(["str", {"g": "list", "a": ["str"]}, "float"])
-        a = next(n for n in nodes if n["name"] == "a")
         a["ann"]["return"] = rng.choice(["int", {"g": "list", "a": ["int"]}])
     elif flaw == "missing_annotation":
         if not g.get("strict"):
             return None
-        n = rng.choice([x for x in nodes if x["name"] in ("a", "b")])
+        cands = [x for x in nodes if x["name"] in ("a", "b")]
+        if not cands:
+            return None
+        n = rng.choice(cands)
         if n["name"] == "a":
             del n["ann"]["return"]
         else:
